@@ -26,7 +26,10 @@
 #include <omp.h>
 #include <cxxabi.h>
 #include <typeinfo>
+#if defined(__SANITIZE_ADDRESS__)
 #include <sanitizer/common_interface_defs.h>
+#define C09_HAVE_SAN 1
+#endif
 
 #include "colvarcomp.h"
 #include "colvarbias_histogram.h"
@@ -249,8 +252,12 @@ static void run_batch(size_t n, std::function<void(size_t, Slot &)> fn, double t
 }
 
 // One parse on a fresh module
+static c09proxy *g_live = NULL;
+static int g_live_uses = 0;
+
 static void exec_parse(std::string const &conf, Slot &s)
 {
+  if (g_live) { delete g_live; g_live = NULL; }  // one module per process at a time
   c09proxy *px = make_px();
   int rc = px->config(conf);
   s.rc = rc;
@@ -270,6 +277,32 @@ static void exec_parse(std::string const &conf, Slot &s)
   delete px;
 }
 
+// One parse on a module kept alive between cases (token strings only: they are too short to define an object; the
+// module is replaced as soon as it holds any object, and every 2000 cases).  A death or a wrong acceptance seen this
+// way is always re-run alone on a fresh module before it is reported.
+static void exec_parse_live(std::string const &conf, Slot &s)
+{
+  if (!g_live) { g_live = make_px(); g_live_uses = 0; }
+  c09proxy *px = g_live;
+  px->errtxt.clear();
+  px->n_errors = 0;
+  int rc = px->config(conf);
+  s.rc = rc;
+  s.accepted = (rc == 0);
+  s.aux = (int) (px->colvars->colvars.size() + px->colvars->biases.size());
+  std::string k;
+  bool inq = false;
+  for (char c : px->errtxt) {
+    if (c == '"') { inq = !inq; continue; }
+    if (!inq && !(c >= '0' && c <= '9')) k += c;
+    if (k.size() > 60) break;
+  }
+  s.h1 = fnv(k);
+  if (!rc && !px->errtxt.empty()) s.aux |= 0x10000;
+  if (rc && px->errtxt.empty()) s.aux |= 0x20000;
+  if ((s.aux & 0xffff) || ++g_live_uses >= 2000) { delete g_live; g_live = NULL; }
+}
+
 // ---- dead children: classification, confirmation alone, signature ----
 static std::string g_self, g_repo_arg, g_scratch;
 static bool g_case_runs_steps = false;  // layout mode: a case is parse + 3 steps
@@ -286,7 +319,9 @@ static void on_terminate()
   }
   try { throw; } catch (std::exception const &e) { what = e.what(); } catch (...) {}
   fprintf(stderr, "terminate called after throwing an instance of '%s'\n  what():  %s\n", tn.c_str(), what.c_str());
+#ifdef C09_HAVE_SAN
   __sanitizer_print_stack_trace();
+#endif
   fflush(stderr);
   _exit(96);
 }
@@ -425,20 +460,72 @@ static int replay_symbolized(std::string const &conf, std::string &err)
   return WIFSIGNALED(st) ? -WTERMSIG(st) : WEXITSTATUS(st);
 }
 
+// resolve the frames of an unsymbolized report with addr2line (deterministic: needs no second death, so it also
+// works for reports that depend on uninitialised memory)
+static bool addr2line_where(std::string const &err, std::string &where, std::string &text)
+{
+  std::vector<std::string> offs;
+  size_t pos = 0;
+  while (offs.size() < 14 && (pos = err.find("+0x", pos)) != std::string::npos) {
+    size_t e = err.find(')', pos);
+    size_t lb = err.rfind('\n', pos);
+    size_t b = (lb == std::string::npos) ? 0 : lb + 1;
+    std::string line = err.substr(b, pos - b);
+    if (e != std::string::npos && line.find('#') != std::string::npos && line.find("c09_") != std::string::npos)
+      offs.push_back(err.substr(pos + 1, e - pos - 1));
+    pos += 3;
+  }
+  if (offs.empty()) return false;
+  std::string cmd = "addr2line -a -i -f -C -e '" + g_self + "'";
+  for (auto &o : offs) cmd += " " + o;
+  cmd += " 2>/dev/null";
+  FILE *p = popen(cmd.c_str(), "r");
+  if (!p) return false;
+  std::vector<std::string> lines;
+  char buf[4096];
+  while (fgets(buf, sizeof(buf), p)) {
+    std::string l = buf;
+    while (l.size() && (l.back() == '\n' || l.back() == '\r')) l.pop_back();
+    if (l.compare(0, 2, "0x") == 0 && l.find(' ') == std::string::npos) continue;  // the address line of -a
+    lines.push_back(l);
+  }
+  pclose(p);
+  where.clear();
+  text.clear();
+  for (size_t i = 0; i + 1 < lines.size(); i += 2) {
+    std::string fn = lines[i], file = lines[i + 1];
+    size_t disc = file.find(" (discriminator");
+    if (disc != std::string::npos) file.erase(disc);
+    text += "    #" + std::to_string(i / 2) + " " + fn.substr(0, 160) + " " + file + "\n";
+    if (where.empty() && file.find("/src/colvar") != std::string::npos && file.find(".cpp:") != std::string::npos) {
+      size_t par = fn.find('(');
+      std::string f = fn.substr(0, par);
+      size_t sl = file.rfind('/');
+      std::string base = file.substr(sl + 1);
+      where = f + "@" + base.substr(0, base.find(':'));
+    }
+  }
+  return !where.empty();
+}
+
 struct SigInfo { std::string kind, head; };
 static std::map<std::string, SigInfo> g_sigcache;  // death key -> symbolized signature (per worker)
 
 static void report_dead(Result &r, std::string const &part, std::string const &conf, Slot const &s,
                         std::string const &batch_err, std::string const &origin)
 {
-  (void) batch_err;
   std::string err;
   int ei = replay_alone(conf, s.status == 3 ? 50.0 : 30.0, err);
   if (ei == 0) {
     // did not reproduce alone (a case that was only slow under load, or a death that depends on what ran before)
+    // (typical: a UBSan report about an uninitialised value, which depends on what the memory held)
+    std::string k = (s.status == 3) ? "slow" : death_kind(s.exitinfo, batch_err);
     r.count(part + "_died_or_slow_in_batch_but_fine_alone");
-    r.notes.push_back("case " + std::string(s.status == 3 ? "exceeded 5 s" : "died") + " in its batch but ran normally alone: " +
-                      jesc(origin) + " " + jesc(conf.substr(0, 120)));
+    r.count(part + "_fine_alone:" + k);
+    static int n_notes = 0;
+    if (n_notes++ < 1)
+      r.notes.push_back("case " + std::string(s.status == 3 ? "exceeded 20 s" : "died (" + k + ")") +
+                        " in its batch but ran normally alone, not reported: " + origin);
     return;
   }
   std::string sig, head;
@@ -449,10 +536,14 @@ static void report_dead(Result &r, std::string const &part, std::string const &c
     std::string key = death_key(ei, err);
     auto it = g_sigcache.find(key);
     if (it == g_sigcache.end()) {
-      std::string serr;
-      int e2 = replay_symbolized(conf, serr);
+      std::string serr, w0, frames;
       SigInfo si;
-      if (e2 == 0 || e2 == 95) {
+      int e2 = 0;
+      if (addr2line_where(err, w0, frames)) {
+        si.kind = death_kind(ei, err) + ":" + w0;
+        size_t cut = err.find("    #0");
+        si.head = err.substr(0, std::min<size_t>(cut, 600)) + frames.substr(0, 1500);
+      } else if ((e2 = replay_symbolized(conf, serr)) == 0 || e2 == 95) {
         si.kind = death_kind(ei, err) + ":not-symbolized";
         si.head = err.substr(0, 1500);
       } else {
@@ -1006,6 +1097,7 @@ static void harvest_probe(CorpusFile const &f, Ctx const &c, FILE *o, Slot &s)
     }
   };
   s.rc = px->config(t);
+  s.accepted = (s.rc == 0);
   bool ok = false;
   if (fired && regs.size()) {
     int dmax = -1;
@@ -1049,6 +1141,19 @@ static bool harvest(std::vector<CorpusFile> const &C, KindSets &K, Result &r)
   for (size_t k = 0; k < probes.size(); k++) {
     r.count("harvest_contexts");
     if (slots[k].status != 1) { r.count("harvest_probe_died"); unident.insert(probes[k].c.kind); }
+    else if (slots[k].accepted) {
+      // the parser accepted a keyword that exists nowhere: a strictness violation in its own right
+      std::string t = C[probes[k].fi].text;
+      t.insert(probes[k].c.insert_off, std::string("\n") + BOGUS + " 1\n");
+      r.count("evaluations");
+      r.count("strict_unknown_keyword_probe_accepted");
+      r.seen("nontrivial", t);
+      std::string shape = probes[k].c.depth == 0 ? "top-level" : "in-block";
+      r.violation("C09:strict:unknown-keyword:" + shape + ":accepted",
+                  "{\"mode\":\"strict\",\"file\":" + jstr(C[probes[k].fi].name) + ",\"class\":\"unknown-keyword\",\"context\":" +
+                  jstr(probes[k].c.kind) + ",\"keyword\":\"zzzbogus\",\"config\":" + jstr(t) +
+                  ",\"observed\":\"accepted (error bits 0)\",\"expected\":\"rejected with an error\"}");
+    }
     else if (!slots[k].aux) r.count("harvest_contexts_unidentified");
   }
   std::istringstream is(out);
@@ -1153,8 +1258,7 @@ static int mode_total(Args &args, Result &total)
   };
 
   // ---- B. byte mutations of corpus files ----
-  std::vector<char> repl = th ? std::vector<char>{'{', '}', '\n', '#', ' ', '\0', (char) 0x80, 'x', '1', '(', '-', '\r'}
-                              : std::vector<char>{'{', '}', '\n'};
+  std::vector<char> repl = th ? std::vector<char>{'{', '}', '\n', '#', '\0', 'x'} : std::vector<char>{};
   int const per_off = 2 + (int) repl.size();
   std::vector<unsigned long> fbase;  // cumulative case index per file
   unsigned long nmut = 0;
@@ -1198,9 +1302,9 @@ static int mode_total(Args &args, Result &total)
       run_batch(nb, [&](size_t k, Slot &s) {
         unsigned long i = mine[b0 + k];
         std::string origin;
-        std::string conf = (i < nstrings) ? gen_string(i) : gen_mut(i - nstrings, origin);
-        exec_parse(conf, s);
-      }, 5.0, slots, &bad_err);
+        if (i < nstrings) exec_parse_live(gen_string(i), s);
+        else exec_parse(gen_mut(i - nstrings, origin), s);
+      }, 20.0, slots, &bad_err);
       size_t nbad = 0;
       for (size_t k = 0; k < nb; k++) {
         unsigned long i = mine[b0 + k];
@@ -1221,7 +1325,14 @@ static int mode_total(Args &args, Result &total)
             std::string must = ref_must_reject(conf, toplevel);
             if (must.size()) {
               r.count("total_ref_must_reject");
+              bool acc_fresh = false;
               if (s.accepted) {
+                std::vector<Slot> one;
+                run_batch(1, [&](size_t, Slot &x) { exec_parse(conf, x); }, 30.0, one);
+                acc_fresh = (one[0].status == 1 && one[0].accepted);
+                if (!acc_fresh) r.count("total_accepted_on_live_module_only");
+              }
+              if (acc_fresh) {
                 r.violation("C09:strict:token-string:" + must + ":accepted",
                             "{\"mode\":\"total\",\"origin\":\"token-string\",\"config\":" + jstr(conf) +
                             ",\"observed\":\"accepted (error bits 0)\",\"expected\":\"rejected: " + must + "\"}");
@@ -1314,8 +1425,8 @@ static void gen_mutations(CorpusFile const &f, KindSets const &K, bool th, std::
     int mi = 0;
     for (auto &m : ms) {
       mi++;
-      if (ks == K.end()) { r.count("strict_skipped_context_not_harvested"); continue; }
-      if (ks->second.count(lower(m))) { r.count("strict_skipped_misspelling_is_a_keyword"); continue; }
+      if (ks == K.end()) r.count("strict_misspelling_not_screened_against_registry");
+      else if (ks->second.count(lower(m))) { r.count("strict_skipped_misspelling_is_a_keyword"); continue; }
       Mut mu;
       mu.cls = "misspelled-keyword";
       mu.shape = (n.kind == 2 ? "block" : "plain") + std::string("/variant") + std::to_string(mi);
@@ -1429,14 +1540,16 @@ static int mode_strict(Args &args, Result &total)
 
   KindSets K;
   if (!harvest(C, K, total)) return 2;
-  if (K.count("module") == 0 || K.count("colvar") == 0 || K.count("atomgroup") == 0 || K.count("bias:harmonic") == 0) {
-    fprintf(stderr, "HARNESS-ERROR: keyword harvest incomplete (%zu kinds)\n", K.size());
-    return 2;
-  }
-  if (!K["module"].count("colvar") || !K["colvar"].count("name") || !K["atomgroup"].count("atomnumbers") ||
-      K["colvar"].count("atomnumbers") || K["module"].count("name")) {
-    fprintf(stderr, "HARNESS-ERROR: harvested keyword sets fail the sanity check\n");
-    return 2;
+  bool const registry_ok = K.count("module") && K.count("colvar") && K.count("atomgroup") && K.count("bias:harmonic") &&
+                           K["module"].count("colvar") && K["colvar"].count("name") && K["atomgroup"].count("atomnumbers") &&
+                           !K["colvar"].count("atomnumbers") && !K["module"].count("name");
+  if (!registry_ok) {
+    if (total.counters["strict_unknown_keyword_probe_accepted"] == 0) {
+      fprintf(stderr, "HARNESS-ERROR: keyword harvest incomplete or inconsistent (%zu kinds) although no probe was accepted\n", K.size());
+      return 2;
+    }
+    total.notes.push_back("the parser accepted unknown-keyword probes, so its keyword registry could not be harvested everywhere: "
+                          "misspellings in such contexts are not screened against accidental keywords, transplants into them are skipped");
   }
 
   bool ok = run_sharded(args.jobs, [&](int shard, int nshards, Result &r) {
@@ -1450,7 +1563,7 @@ static int mode_strict(Args &args, Result &total)
       // case 0 = the unmutated file (must be accepted, otherwise nothing below means anything)
       std::vector<Slot> slots;
       std::vector<std::string> bad_err;
-      run_batch(M.size() + 1, [&](size_t k, Slot &s) { exec_parse(k == 0 ? f.text : M[k - 1].text, s); }, 5.0, slots, &bad_err);
+      run_batch(M.size() + 1, [&](size_t k, Slot &s) { exec_parse(k == 0 ? f.text : M[k - 1].text, s); }, 20.0, slots, &bad_err);
       if (slots[0].status != 1 || !slots[0].accepted) {
         fprintf(stderr, "HARNESS-ERROR: corpus file %s is not accepted unmodified (status %d rc %d)\n", f.name.c_str(),
                 slots[0].status, slots[0].rc);
@@ -1510,7 +1623,7 @@ static int mode_strict(Args &args, Result &total)
   }
   total.notes = keep;
   for (auto &kv : kw) {
-    std::string s = kv.first + " — " + std::to_string(kv.second.size()) + " context/keyword pairs:";
+    std::string s = kv.first + " - " + std::to_string(kv.second.size()) + " context/keyword pairs:";
     int c = 0;
     for (auto &k : kv.second) { if (c++ < 40) s += " " + k; }
     if (kv.second.size() > 40) s += " ...";
@@ -1653,7 +1766,7 @@ static int mode_layout(Args &args, Result &total)
       for (size_t k = 0; k < S.size(); k++) {
         Slot const &s = slots[k];
         r.count("evaluations");
-        r.count("transitions", 3);
+        r.count("layout_engine_steps", 3);
         if (texts[k] != f.text) r.seen("nontrivial", texts[k]);
         if (s.status != 1) {
           r.count("layout_deaths_in_batch");
@@ -1690,7 +1803,7 @@ static int mode_layout(Args &args, Result &total)
   }
   total.notes = keep;
   for (auto &kv : kw) {
-    std::string s = kv.first + " — " + std::to_string(kv.second.size()) + " files:";
+    std::string s = kv.first + " - " + std::to_string(kv.second.size()) + " files:";
     int c = 0;
     for (auto &k : kv.second) { if (c++ < 30) s += " " + k; }
     if (kv.second.size() > 30) s += " ...";
@@ -1740,6 +1853,13 @@ static int mode_replay(Args &args, Result &total, std::string const &mode)
   std::vector<Slot> slots;
   std::vector<std::string> bad;
   run_batch(1, [&](size_t, Slot &s) {
+    if (g_case_runs_steps) {
+      Obs ob = observe(conf);
+      s.rc = ob.rc_parse; s.accepted = (ob.rc_parse == 0);
+      printf("parser returned error bits %d; 3 steps completed\n", ob.rc_parse);
+      fflush(stdout);
+      return;
+    }
     c09proxy *px = make_px();
     int rc = px->config(conf);
     s.rc = rc; s.accepted = (rc == 0);
